@@ -69,12 +69,50 @@ theorem keyed_partition_range (key : List (BitVec 8)) (hlen : key.length < 2^32)
   have hlt : javaKeyedIndex key n < n := Nat.mod_lt _ hn
   simp [List.length_range, hlt]
 
+theorem mem_insertU (a b : Nat) (l : List Nat) : b ∈ insertU a l ↔ b = a ∨ b ∈ l := by
+  induction l with
+  | nil => simp [insertU]
+  | cons x r ih =>
+    unfold insertU
+    split
+    · simp
+    · split
+      · rename_i h; subst h; simp
+      · simp [ih]; constructor
+        · rintro (h | h | h) <;> simp [h]
+        · rintro (h | h | h) <;> simp [h]
+
+theorem mem_usort (l : List Nat) (b : Nat) : b ∈ usort l ↔ b ∈ l := by
+  induction l with
+  | nil => simp [usort]
+  | cons x r ih =>
+    show b ∈ insertU x (usort r) ↔ _
+    rw [mem_insertU, ih]; simp
+
+/-- through the real metadata glue: whenever some partition of the topic has a leader (any node
+    id other than −1, node 0 included), an unkeyed record goes to a partition that has one -/
+theorem unkeyed_md_has_leader (leaders : List (Nat × Int)) (c : Nat)
+    (h : ∃ pl ∈ leaders, pl.2 ≠ -1) :
+    ∃ p l, partitionMd none leaders c = some p ∧ (p, l) ∈ leaders ∧ l ≠ -1 := by
+  obtain ⟨pl, hpl, hl⟩ := h
+  have hne : usort ((leaders.filter (fun pl => pl.2 != -1)).map (·.1)) ≠ [] := by
+    apply List.ne_nil_of_mem (a := pl.1)
+    rw [mem_usort]
+    exact List.mem_map.mpr ⟨pl, List.mem_filter.mpr ⟨hpl, by simpa using hl⟩, rfl⟩
+  obtain ⟨p, hp, hq⟩ := unkeyed_in_available (usort (leaders.map (·.1))) _ c hne
+  rw [mem_usort] at hp
+  obtain ⟨q, hq1, hq2⟩ := List.mem_map.mp hp
+  obtain ⟨hq3, hq4⟩ := List.mem_filter.mp hq1
+  refine ⟨p, q.2, hq, ?_, by simpa using hq4⟩
+  rw [← hq2]; exact hq3
+
 /-- non-vacuity / sanity: the value pinned by the Java client's own test vectors
     (`tests/test_partitioner.py`: murmur2(b"1") = 1311020360 & 0x7fffffff…) is computed by both -/
 example : pyMurmur2 [0x31] = (javaMurmur2 [0x31#8]).toNat := by decide
 example : partition (some [0x31]) [0, 1, 2] [] 0 = some ((pyMurmur2 [0x31] &&& 0x7FFFFFFF) % 3) := by
   decide
 example : partition none [0, 1, 2] [2, 1] 5 = some 1 := by decide
+example : partitionMd none [(0, -1), (1, 0), (2, -1)] 7 = some 1 := by decide
 
 end AkVerif.Murmur
 
